@@ -147,8 +147,9 @@ type inst struct {
 	// the first (one Push before, one Pop after each operation).  Two rings share nothing, so
 	// the twin must neither lose, duplicate nor invent a value (package-level pools, caches or
 	// scratch state would couple them).
-	tw  ringAPI
-	twl [16]struct{ pushed, popped []int }
+	tw   ringAPI
+	elem int
+	twl  [16]struct{ pushed, popped []int }
 	// the probe thread runs while the others are frozen in the middle of their operations: it
 	// keeps its hands off the twin (a frozen twin Push would make it wait for ever)
 	probe int
@@ -183,6 +184,23 @@ func (x *inst) Do(t int, op sim.Op) sim.Rec {
 		r.OK = x.r.IsEmpty()
 	case "IsFull":
 		r.OK = x.r.IsFull()
+	case "Fresh":
+		// a ring created while the others are in use: it shares nothing with them.  The
+		// requested capacities vary (powers of two and not), like those of the main ring.
+		f, _ := newRing(x.elem, []int{1, 2, 3, 5, 6, 8}[(t+op.V)%6])
+		v := 0x200000 + t<<8 + op.V
+		ok1 := f.Push(v)
+		n1 := f.Len()
+		fills := 0
+		for f.Push(v + 0x10000 + fills) {
+			fills++
+			if fills > 16 {
+				break
+			}
+		}
+		got, ok := f.Pop()
+		r.V, r.OK = got, ok1 && ok && got == v && n1 == 1 && fills == f.Cap()-1
+		r.Vs = []int{v, n1, fills, f.Cap()}
 	case "Drain":
 		for i := 0; i < x.cap+2; i++ {
 			v, ok := x.r.Pop()
@@ -280,7 +298,7 @@ func validateFF(req int) bool {
 	return ok
 }
 
-var opNames = []string{"Push", "Pop", "Len", "IsEmpty", "IsFull", "PushWait", "PopWait"}
+var opNames = []string{"Push", "Pop", "Len", "IsEmpty", "IsFull", "PushWait", "PopWait", "Fresh"}
 
 func gen(r *sim.Rng, tier string) *sim.Case {
 	maxT, maxOps := 4, 4
@@ -351,7 +369,10 @@ func gen(r *sim.Rng, tier string) *sim.Case {
 	}
 	scen := r.Pick(8, 1, 1) // general | pushers only | poppers only
 	c.Params["scenario"] = scen
-	w := []int{r.Range(1, 6), r.Range(1, 6), r.Range(0, 2), r.Range(0, 1), r.Range(0, 1), r.Range(0, 2), r.Range(0, 2)}
+	w := []int{r.Range(1, 6), r.Range(1, 6), r.Range(0, 2), r.Range(0, 1), r.Range(0, 1), r.Range(0, 2), r.Range(0, 2), 0}
+	if r.Pct(12) {
+		w[7] = 1 // a new ring is created (and used) while the others are in use
+	}
 	total := 0
 	zeroPushed := false
 	for t := 0; t < nT; t++ {
@@ -368,6 +389,9 @@ func gen(r *sim.Rng, tier string) *sim.Case {
 				k = 1
 			}
 			op := sim.Op{Op: opNames[k]}
+			if k == 7 {
+				op.V = i + 1
+			}
 			if k == 0 || k == 5 {
 				op.V = (t+1)<<8 | (i + 1)
 				if !zeroPushed && r.Pct(4) {
@@ -417,7 +441,7 @@ var ffSkipped, ffUsed int
 func build(c *sim.Case) enga.Instance {
 	req := c.P("cap_req")
 	ring, ri := newRing(c.P("elem"), req)
-	x := &inst{r: ring, ri: ri, cap: ring.Cap(), probe: c.Sched.Probe}
+	x := &inst{r: ring, ri: ri, cap: ring.Cap(), probe: c.Sched.Probe, elem: c.P("elem")}
 	if c.P("twin") == 1 {
 		x.tw, _ = newRing(c.P("elem"), 64)
 	}
@@ -474,6 +498,10 @@ func check(run *enga.Run) *sim.Violation {
 				continue
 			}
 			switch op.Op {
+			case "Fresh":
+				if r.Done && !r.OK {
+					return &sim.Violation{Class: "fresh_instance_disturbed", Site: "ringz.NewSync", Detail: fmt.Sprintf("a ring created while other rings are in use: pushed %#x, Len() = %d, %d further pushes fitted into capacity %d, Pop() = %#x (expected length 1, capacity-1 further pushes and the first value back)", r.Vs[0], r.Vs[1], r.Vs[2], r.Vs[3], r.V)}
+				}
 			case "Push", "PushWait":
 				invoked[op.V] = true
 				if r.Done && r.OK {
@@ -725,6 +753,8 @@ func check(run *enga.Run) *sim.Violation {
 				case "IsFull":
 					o.Input, o.Output = enga.QIn{Kind: enga.QFull}, enga.QOut{OK: r.OK}
 				}
+			case "Fresh":
+				continue // another ring: not part of this ring's history
 			case "Drain":
 				if !r.Done {
 					continue
